@@ -15,7 +15,7 @@ from itertools import product
 from . import dom
 from . import vmrules as R
 from .facts import AnalysisBroken
-from .util import calls_in, find_decl
+from .util import calls_in, find_decl, callers_of
 
 LEVEL = 'other'
 EXPLANATION = ('An abstract evaluation of the comparison-only function RuleEntry::operator< over the finite set of order types of '
@@ -637,7 +637,15 @@ def dirreaders(run, fx):
     if len(readers) < 3:
         run.broken('PASSORDER', inst, 'only %d readers of Segment::dir() / m_dir found' % len(readers))
         return
-    bad = sorted(q for q in readers if q not in DIR_READERS and not q.startswith('graphite2::Segment::Segment'))
+    def tabled(q, depth=0):
+        # a helper that only the tabled readers call reads for them (`runsReversed(seg)` extracted from justify)
+        if q in DIR_READERS or q.startswith('graphite2::Segment::Segment'):
+            return True
+        if depth > 3:
+            return False
+        cs = {f_.q for f_, _e in callers_of(fx, q)}
+        return bool(cs) and all(tabled(c_, depth + 1) for c_ in cs)
+    bad = sorted(q for q in readers if not tabled(q))
     if bad:
         fn = fx.fns_named(bad[0])[0]
         e = readers[bad[0]]
